@@ -277,6 +277,46 @@ def main():
                 check(rac, f"inplace-expr {iop} {a!r} {b!r}", f"{iop} on t = s+1 (s={a!r}) with {b!r}", g1, w1, sc2, f"MutableRef.__{iop}__")
                 check(rac, f"inplace-expr-update {iop} {a!r} {b!r}", f"{iop} on t = s+1 then s = 9", g2, w2, sc2, f"MutableRef.__{iop}__")
             rac.case((iop, "expr", repr(a), repr(b)), sample=dict(op=iop, on="expression", a=repr(a), b=repr(b)))
+    rac.section("inplace-mutable", "in-place operators through a reference on a location holding a MUTABLE value (integer and float arrays, a list) that a "
+                "second location also holds: the result is `old value OP operand` as the binary operator gives it (an integer array with a float "
+                "operand becomes a float array; list + tuple raises TypeError) and the old value object itself -- still held by the other location -- is "
+                "not altered", "13 operators x 4 stored values x 2 operands")
+    import copy as _copy
+    for iop in INPL:
+        base = iop[1:]
+        f = getattr(operator, {"and": "and_", "or": "or_"}.get(base, base))
+        fi = getattr(operator, iop)
+        stored = [np.array([1, 2, 3]), np.array([1.5, -2.0, 4.0]), [1, 2], np.array([[1, 2], [3, 4]])]
+        for val, b in itertools.product(stored, [0.5, 2, (3,), [5]]):
+            if isinstance(b, (tuple, list)) and not (isinstance(val, list) and iop in ("iadd", "imul")):
+                continue
+            orig = _copy.deepcopy(val)
+            want = pyeval(f, _copy.deepcopy(val), b)
+            d, m, r = fresh(dict(a=val, keep=val))
+            key = f"inplace-mutable {iop} {val!r} {b!r}"
+            script = hdr + f"val = {lit(val) if isinstance(val, np.ndarray) else repr(val)}\nd = dict(a=val, keep=val); m = xdeps.Manager(); r = m.ref(d, 'd')\n" \
+                f"import copy; orig = copy.deepcopy(val)\ntry:\n    want = ('ok', operator.{base if base not in ('and', 'or') else base + '_'}(copy.deepcopy(val), {b!r}))\nexcept Exception as ex:\n    want = ('raise', type(ex))\n" \
+                f"try:\n    x = r['a']; x = operator.{iop}(x, {b!r}); r['a'] = x\n    got = ('ok', d['a'])\nexcept Exception as ex:\n    got = ('raise', type(ex))\nprint(got, want, d['keep'])\n" \
+                "assert got[0] == want[0], (got, want)\nif got[0] == 'ok':\n    assert np.array_equal(np.asarray(got[1]), np.asarray(want[1]), equal_nan=True) and type(got[1]) is type(want[1]) and getattr(got[1], 'dtype', None) == getattr(want[1], 'dtype', None), (got, want)\n" \
+                "assert d['keep'] is val and np.array_equal(np.asarray(val), np.asarray(orig)), ('the old value object was altered', val, orig)\n"
+            try:
+                x = r["a"]
+                x = fi(x, b)
+                r["a"] = x
+                got = ("ok", d["a"])
+            except Exception as ex:      # noqa
+                got = ("raise", type(ex))
+            rac.case(("inplace-mutable", iop, repr(val), repr(b)), nontrivial=want[0] == "ok", sample=dict(op=iop, stored=repr(val), operand=repr(b)))
+            bad = None
+            if got[0] != want[0] or (got[0] == "raise" and got[1] is not want[1]):
+                bad = f"gives {got}, the binary operator on the values gives {want}"
+            elif got[0] == "ok" and not (np.array_equal(np.asarray(got[1]), np.asarray(want[1]), equal_nan=True) and type(got[1]) is type(want[1])
+                                          and getattr(got[1], "dtype", None) == getattr(want[1], "dtype", None)):
+                bad = f"stores {got[1]!r} ({getattr(got[1], 'dtype', type(got[1]).__name__)}), the binary operator on the values gives {want[1]!r} ({getattr(want[1], 'dtype', type(want[1]).__name__)})"
+            elif d["keep"] is not val or not np.array_equal(np.asarray(val), np.asarray(orig)):
+                bad = f"altered the old value object, which another location still holds: now {val!r}, was {orig!r}"
+            if bad:
+                rac.fail(key, f"{iop} through a reference on a location holding {orig!r} with operand {b!r}: {bad}", script, f"MutableRef.__{iop}__")
     rac.section("inplace-chains", "two and three successive in-place updates with literals on a location defined by an expression (x = a; x OP= c1; "
                 "x OP= c2 [; x OP= c3]), values where the operation is not associative in floating point (1e16 + 1 + 1, 0.1 * 3 * 3, "
                 "1e-300 * 1e200 * 1e200): bit-for-bit what Python gives on the plain values, also after the source changed",
